@@ -93,14 +93,16 @@ def main():
                 npred += 1
                 if first_pred is None: first_pred = ("LAWS %s %d %d" % (nm, n, c.seed), what)
     if len(lawsum) < len(names) * len(C06_LAWS): c.broken.append("law search produced %d of %d results (driver crashed?)" % (len(lawsum), len(names) * len(C06_LAWS)))
-    # compound extent vs tiny weights (known finding), on the real code
+    # compound extent vs tiny weights (once a finding, repaired in /repo): the probe stays as a regression test
     kf = "SPACE CO 1 0x1p-60 RV 1 0x0p+0 0x1p+0\nEXT\nDIST 0x0p+0 | 0x1p+0\n"
     r3 = vf.sh([drv], input=kf, timeout=60)
     ol = r3[1].split("\n")
-    if len(ol) >= 3 and ol[1].split()[-1] == "0000000000000000" and ol[2].split()[-1] != "0000000000000000":
-        what = "CompoundStateSpace::getMaximumExtent skips components whose weight is below epsilon while distance() still adds them: weight 2^-60 on [0,1] gives extent 0 < distance 2^-60"
-        if not c.known_finding("C06-compound-extent-skips-tiny-weights", what):
-            c.violation("implementation violates C06: " + what, "# C06 replay\n" + kf)
+    try:
+        e_c = _val(impl_bits(ol[1])[0][0]); d_c = _val(impl_bits(ol[2])[0][0])
+        if not (d_c <= e_c):
+            c.violation("implementation violates C06: CompoundStateSpace::getMaximumExtent = %r is below the distance %r of two in-bounds states (component of weight 2^-60 on [0,1] left out of the extent while distance() adds it)" % (e_c, d_c), "# C06 replay\n" + kf)
+    except Exception:
+        c.broken.append("C06 probe of the compound extent produced no output")
     # unbounded time: every state is within the (absent) bounds, the reported extent is the nominal 1
     kf2 = "SPACE TU\nEXT\nDIST 0x0p+0 | 0x1.8p+2\n"
     r4 = vf.sh([drv], input=kf2, timeout=60)
